@@ -9,6 +9,7 @@ Definition enc_out (o : out) : list N :=
   match o with
   | ODone => [0] | OSet g => [1; g] | OItem v c => [2; 1; v; enc_cont c] | OPending => [3]
   | OEnd => [4] | OGone => [5] | OPanic => [6] | OSub k => [7; N.of_nat k] | OFuel => [8]
+  | OGet g => [9; g] | OHandle k => [10; N.of_nat k]
   end%N.
 
 (* implementation result -> out; None for anything the vocabulary has no word for (e.g. a reply
@@ -25,6 +26,8 @@ Definition dec_out (l : list N) : option out :=
   | [5] => Some OGone
   | [6] => Some OPanic
   | [7; k] => Some (OSub (N.to_nat k))
+  | [9; g] => Some (OGet g)
+  | [10; k] => Some (OHandle (N.to_nat k))
   | _ => None
   end%N.
 
@@ -56,21 +59,38 @@ Fixpoint sublistb (a b : list N) : bool :=
 Definition optN_eqb (a b : option N) : bool :=
   match a, b with Some x, Some y => (x =? y)%N | None, None => true | _, _ => false end.
 
-Definition is_dropstate (e : ev) : bool := match e with (DropState, ODone) => true | _ => false end.
+(* some / no State handle exists at the end of the history p (handle indices < length p + 1) *)
+Definition any_handle (p : list ev) : bool :=
+  existsb (fun h => handle_live h p) (seq 0 (S (length p))).
 
 (* event number i (its prefix is firstn (S i) tr) *)
 Definition event_ok (tr : list ev) (i : nat) : bool :=
+  let p := firstn (S i) tr in
+  let before := firstn i tr in
   match nth_error tr i with
   | Some (Poll s, OItem _ c) => match c with CTrue => true | _ => false end
   | Some (Poll s, OPending) =>
-      (* nothing to hand out: the subscriber is up to date with the latest value set *)
-      let p := firstn (S i) tr in optN_eqb (last_opt (received s p)) (last_opt (sets_after s p))
+      (* nothing to hand out: the subscriber is up to date with the latest value set, and the
+         state still exists (some handle is alive) *)
+      any_handle p && optN_eqb (last_opt (received s p)) (last_opt (sets_after s p))
   | Some (Poll s, OEnd) =>
-      let p := firstn (S i) tr in
-      existsb is_dropstate p && optN_eqb (last_opt (received s p)) (last_opt (sets_after s p))
-  | Some (Set_ v, OSet g) => (v =? g)%N
-  | Some (Set_ v, OGone) => existsb is_dropstate (firstn i tr)
-  | Some (Set_ v, _) => false
+      (* end of stream: only when ALL handles are gone, and nothing was lost *)
+      negb (any_handle p) && optN_eqb (last_opt (received s p)) (last_opt (sets_after s p))
+  | Some (Set_ h v, OSet g) => handle_live h before && (v =? g)%N
+  | Some (Set_ h v, OGone) => negb (handle_live h before)
+  | Some (Set_ h v, _) => false
+  | Some (Get h, OGet g) => handle_live h before && optN_eqb (nth_error (hvals before) h) (Some g)
+  | Some (Get h, OGone) => negb (handle_live h before)
+  | Some (Get h, _) => false
+  | Some (Subscribe h, OSub _) => handle_live h before
+  | Some (Subscribe h, OGone) => negb (handle_live h before)
+  | Some (Subscribe h, _) => false
+  | Some (CloneH h, OHandle _) => handle_live h before
+  | Some (CloneH h, OGone) => negb (handle_live h before)
+  | Some (CloneH h, _) => false
+  | Some (DropH h, ODone) => handle_live h before
+  | Some (DropH h, OGone) => negb (handle_live h before)
+  | Some (DropH h, _) => false
   | Some (_, OPanic) => false
   | Some (_, OFuel) => false
   | _ => true
